@@ -124,7 +124,7 @@ func byteMutate(text string, r *Rand) (string, string) {
 		return string(append(rs[:i:i], rs[i+1:]...)), "byte-delete"
 	case 2:
 		i := r.Intn(len(rs) + 1)
-		ins := []rune(r.Pick([]string{"#", ";", ":", "é", "'", "\"", "%", ".", "/", "*", "!", "?", "\\", "\n", "\r", "\t", "$", "@", "0", "9", "A", "z", "_", "-", "+", "/*", "*/", "//", "日"}))
+		ins := []rune(r.Pick([]string{"#", ";", ":", "é", "'", "\"", "%", ".", "/", "*", "!", "?", "\\", "\n", "\r", "\t", "$", "@", "0", "9", "A", "z", "_", "-", "+", "/*", "*/", "//", "日", "😀"}))
 		return string(append(rs[:i:i], append(ins, rs[i:]...)...)), "byte-insert"
 	case 3:
 		i := r.Intn(len(rs))
@@ -335,7 +335,7 @@ func (c *Ctx) tokenCase(text string, origin string) {
 
 // lexerStress: short strings over the characters the lexer rules discriminate on
 func lexerStress(r *Rand) string {
-	alphabet := []string{"/", "*", "/*", "*/", "//", "\"", "\\", "\\\"", "\n", "\r", " ", "\t", "0", "1", "9", "%", ".", "/ ", " /", "@", ":", "$", "_", "-", "+", "a", "z", "A", "Z", "é", "{", "max", "to", "tokept", "USD", "USD/2", "1/2", "50%", "1.5%", "@a:b", "$x1", "#"}
+	alphabet := []string{"/", "*", "/*", "*/", "//", "\"", "\\", "\\\"", "\n", "\r", " ", "\t", "0", "1", "9", "%", ".", "/ ", " /", "@", ":", "$", "_", "-", "+", "a", "z", "A", "Z", "é", "😀", "{", "max", "to", "tokept", "USD", "USD/2", "1/2", "50%", "1.5%", "@a:b", "$x1", "#"}
 	n := 1 + r.Intn(10)
 	var sb strings.Builder
 	for i := 0; i < n; i++ {
